@@ -198,3 +198,43 @@ def b_half_turn(tier, seed):
             seen.add(f["what"])
             out.append(f)
     return {"cases": cases, "distinct": cases, "failures": out, "bound": f"{len(axes)} axes x angles pi - 10^-k, k = 1..15, and pi; tolerance 1e-6"}
+
+
+@bounded("C02", "tiny-rotation-vectors/rounding")
+def b_tiny(tier, seed):
+    """Bounded stand-in for the other end of the domain in floating point: rotation vectors of tiny but non-zero norm
+    (|psi| = 10^-k, k = 1..17: the relative rotation of an almost straight rod element, rounding noise).  The closed forms
+    are removable singularities there; a formula that is exact over the reals (e.g. gamma = alpha / beta with
+    beta = 2 (1 - cos)/angle^2) can lose every digit.  Tolerance 1e-7 (the unchanged routines are at 5e-9 or better)."""
+    rng = np.random.default_rng(seed + 2)
+    axes = [np.array(v, float) for v in [(1, 0, 0), (0, 0, 1), (1, 1, 0), (1, 2, 2), (-1, 2, 3)]] + [rng.normal(size=3) for _ in range(2 if tier == "quick" else 8)]
+    cases, failures = 0, []
+    with np.errstate(all="ignore"):
+        for ax in axes:
+            ax = ax / np.linalg.norm(ax)
+            for kk in range(1, 18):
+                psi = 10.0 ** (-kk) * ax
+                r = rng.normal(size=3)
+                h = np.concatenate([r, psi])
+                checks = {
+                    "T_SO3 T_SO3_inv = I": lambda: rot.T_SO3(psi) @ rot.T_SO3_inv(psi) - np.eye(3),
+                    "T_SO3_inv T_SO3 = I": lambda: rot.T_SO3_inv(psi) @ rot.T_SO3(psi) - np.eye(3),
+                    "Log_SO3(Exp_SO3(psi)) = psi (relative)": lambda: (rot.Log_SO3(rot.Exp_SO3(psi)) - psi) / np.linalg.norm(psi),
+                    "Exp_SO3(Log_SO3(A)) = A": lambda: rot.Exp_SO3(rot.Log_SO3(rot.Exp_SO3(psi))) - rot.Exp_SO3(psi),
+                    "Log_SE3(Exp_SE3(h)) = h": lambda: rot.Log_SE3(rot.Exp_SE3(h)) - h,
+                    "Exp_SE3(Log_SE3(H)) = H": lambda: rot.Exp_SE3(rot.Log_SE3(rot.Exp_SE3(h))) - rot.Exp_SE3(h),
+                }
+                for what, f in checks.items():
+                    cases += 1
+                    try:
+                        err = float(np.max(np.abs(f())))
+                    except Exception as e:  # noqa: BLE001
+                        err = float("nan")
+                    if not err <= 1e-7:
+                        failures.append({"what": f"{what} fails for a tiny rotation vector", "input": {"psi": psi.tolist(), "r": r.tolist()}, "detail": f"max deviation {err:.3e} at |psi| = 1e-{kk}"})
+    seen, out = set(), []
+    for f in failures:
+        if f["what"] not in seen:
+            seen.add(f["what"])
+            out.append(f)
+    return {"cases": cases, "distinct": cases, "failures": out, "bound": f"{len(axes)} axes x |psi| = 10^-k, k = 1..17, six round trips each; tolerance 1e-7"}
